@@ -2,8 +2,11 @@ package main
 
 import (
 	"bufio"
+	"context"
 	"encoding/json"
 	"fmt"
+	"github.com/orbs-network/lean-helix-go/services/interfaces"
+	"github.com/orbs-network/lean-helix-go/spec/types/go/primitives"
 	"math/rand"
 	"os"
 )
@@ -123,4 +126,15 @@ func intList(v interface{}) []int {
 		out = append(out, int(d.(float64)))
 	}
 	return out
+}
+
+// fakeMembershipId is the minimal Membership the repo's logger needs (MyMemberId only).
+type fakeMembershipId struct{ id primitives.MemberId }
+
+func (m *fakeMembershipId) MyMemberId() primitives.MemberId { return m.id }
+func (m *fakeMembershipId) RequestOrderedCommittee(ctx context.Context, blockHeight primitives.BlockHeight, randomSeed uint64, prevBlockReferenceTime primitives.TimestampSeconds) ([]interfaces.CommitteeMember, error) {
+	return nil, nil
+}
+func (m *fakeMembershipId) RequestCommitteeForBlockProof(ctx context.Context, blockHeight primitives.BlockHeight, prevBlockReferenceTime primitives.TimestampSeconds) ([]interfaces.CommitteeMember, error) {
+	return nil, nil
 }
